@@ -207,7 +207,7 @@ class AddrGroup(Base, Group):
         for item in items:
             idx, item = h.findall2(regex, item)
             try:
-                address = AddressAg(line=item, platform=self._platform)
+                address = AddressAg(line=item, platform=self._platform, version=self.version)
             except ValueError:
                 msg = f"invalid {item=}"
                 logging.debug(msg)
@@ -394,7 +394,9 @@ class AddrGroup(Base, Group):
             parsers.parse_address(line)
         except ValueError:
             return None
-        addr_o = AddressAg(line=line, platform=self._platform, max_ncwb=self.max_ncwb)
+        addr_o = AddressAg(
+            line=line, platform=self._platform, version=self.version, max_ncwb=self.max_ncwb
+        )
         return addr_o
 
 
